@@ -73,8 +73,18 @@ func durSec(s int64) time.Duration { return time.Duration(s) * time.Second }
 // the whole replica-set sync (the strategy's verdict and what the controller then does with it): node0 holds
 // an outdated Ready pod, node1 no pod at all (it joined during the pause).
 func ZZ_C08_pausedStillCreatesThroughTheSync() {
-	c, ds, rsNew, _ := zzStore(2)
+	// a third node may hold a pod of the current template that is not Ready yet (created by the previous
+	// sync): it is nobody's business here — in particular it does not use up what the free node needs
+	notReadyYet := nondet.Bool("node2HoldsAnUpToDatePodNotReadyYet")
+	n := 2
+	if notReadyYet {
+		n = 3
+	}
+	c, ds, rsNew, _ := zzStore(n)
 	ds.Status.ActiveReplicaSet = rsNew.Name
+	if notReadyYet {
+		c.Pods = append(c.Pods, zzPod("starting", zzNodeName(2), rsNew.Name, zzHashNew, 0, corev1.PodRunning, false, nondet.Base().Add(durSec(-20))))
+	}
 	sw := nondet.String("switch", "none", "rolling-update-paused", "rollout-frozen", "both")
 	if sw == "rolling-update-paused" || sw == "both" {
 		ds.Annotations[datadoghqv1alpha1.ExtendedDaemonSetRollingUpdatePausedAnnotationKey] = "true"
